@@ -361,6 +361,9 @@ func relayFaults(a *Args) {
 			}
 			e.finalEvent(res)
 			res.Case("fault:"+kind+fmt.Sprintf(":pos%d", pos), map[string]interface{}{"kind": kind, "position": pos, "healthy_concurrent": total - 1})
+			// (the agent goes first: closing the shim under a live agent makes the agent's transport retry its
+			// pending list call on another pooled connection while the shim is still closing them one by one)
+			e.agent.Kill()
 			shim.close()
 			e.stop()
 		}
